@@ -193,7 +193,11 @@ func gen(t *rapid.T) Case {
 		}
 		s.Handler.Resp = msg(7, 10)
 		s.Handler.Final = finalGen(t)
-		if (s.Cfg.Kind == prog.Unary || s.Cfg.Kind == prog.Client) && rapid.IntRange(0, 3).Draw(t, "mismatch") == 0 {
+		if len(s.Client.Msgs) > 0 && rapid.IntRange(0, 5).Draw(t, "badRequest") == 0 {
+			// the (last) request message cannot be marshalled: Send fails on
+			// the client before anything of it reaches the wire
+			s.Client.Msgs[len(s.Client.Msgs)-1].Bad = true
+		} else if (s.Cfg.Kind == prog.Unary || s.Cfg.Kind == prog.Client) && rapid.IntRange(0, 3).Draw(t, "mismatch") == 0 {
 			// the peer answers a single-response call with a stream of messages
 			s.HandlerKind = map[string]string{prog.Unary: prog.Server, prog.Client: prog.Bidi}[s.Cfg.Kind]
 			s.Handler.Steps = append(s.Handler.Steps, prog.HStep{Op: "recv", N: -1})
@@ -264,6 +268,14 @@ func check(tt *testing.T, c Case) (pbt.Info, error) {
 	}
 	if c.Family == "cancel" {
 		return info, nil // codes after cancellation are C15's business
+	}
+	if n := len(s.Client.Msgs); n > 0 && s.Client.Msgs[n-1].Bad {
+		info.Label("request-message-cannot-be-marshalled")
+		info.NonTrivial = true
+		if res.CleanEnd && res.Err == nil && len(res.SendErrs) == 0 {
+			return info, fmt.Errorf("%s: the request message could not be marshalled, yet no operation of the call failed", where)
+		}
+		return info, nil // it ended, closed the body and left nothing behind (checked above)
 	}
 	if s.HandlerKind != "" {
 		// the call cannot succeed (several messages for a single-response
